@@ -64,6 +64,8 @@ add("C35", EX, "Bounded-exhaustive exploration of map_blocks, blockwise and appl
     "small-scope exhaustive enumeration with value-traced probe functions against a NumPy reference")
 add("C17", MC, "Breadth-first search over ALL histories (depth 4/5) of config.set enter/exit calls (single and multi-key, both spellings, prefix conflicts, kwargs form) on a real private config dict against a deepcopy snapshot-stack model, plus exhaustive small-scope enumeration of update/merge (all ordered pairs of 47 nested dicts x priorities x defaults), collect_env (all environments of <= 2 variables) and serialize round trips.", "5/C17", "Trusted: the snapshot-stack model and the reference update() written from the docstrings; LIFO exits only.",
     "explicit-state BFS over operation histories of the real config machinery with a reference model")
+add("C18", EX, "format_bytes is checked on every n < 2**20 and on both end points of EVERY rounding class of every unit band up to 2**60 (its output is a monotone function of the class, so this covers all integers); parse_bytes/parse_timedelta on every documented unit x every letter-case mask x numeric prefixes against the documented multiplier table; key_split/natural_sort_key on every string of length <= 4 over 9 characters.", "5/C18", "Trusted: the monotonicity/class argument for format_bytes (stated in the evidence assumptions); the documented multiplier table.",
+    "bounded exhaustive enumeration of rounding classes / unit spellings / short strings")
 
 
 def build():
